@@ -1,11 +1,13 @@
 """Net.tla scenarios: C07, C09, C12(order part), C13, C14 and the Net-level part of C03."""
 import json
+import time
+import shutil
 import os
 
 import vlib
 from vlib import Verdict, log, tlc, workdir
 
-INVS = "NoStuck BusyHasUnbusy AccIsSum QueueWithinLimit NoDuplicates NoPastEvents"
+INVS = "NoStuck BusyHasUnbusy AccIsSum QueueWithinLimit NoDuplicates NoPastEvents PanickedInertUnlessPending"
 
 # Named constant tables of MC_Net.tla and their concrete counterparts for the harness.
 TX = {
@@ -18,7 +20,7 @@ LIMITS = {"LimNone": -1, "Lim128": 128, "Lim0": 0, "Lim200": 200}
 
 class Scn:
     def __init__(self, name, topo="T1", stages="One1", stack="One0", catch="OneF", tx="TxLin", lat="Lat1", pol="PolDrop",
-                 lim="LimNone", menu="MenuChan", start="StartChan", max_inv=6, max_t=12, fix_drain=True, jitter_ns=0, endfail="NoEndFail"):
+                 lim="LimNone", menu="MenuChan", start="StartChan", max_inv=6, max_t=12, fix_drain=True, jitter_ns=0, endfail="NoEndFail", replay="NoReplay"):
         self.__dict__.update(locals())
 
     def mods(self):
@@ -30,7 +32,7 @@ class Scn:
         return (f"Mods <- {'ModsAB' if t == 'T1' else 'ModsABC'} Stages <- {self.stages} Stack <- {self.stack} Catch <- {self.catch} EndFail <- {self.endfail} "
                 f"Route <- Route{t} GateOwner <- Owner{t}\n Chans = {chans} TxOf <- {self.tx} LatOf <- {self.lat} PolicyOf <- {self.pol} "
                 f"LimitOf <- {self.lim} BytesOf <- {TX[self.tx]['BytesOf']}\n Menu <- {self.menu} StartMenu <- {self.start} "
-                f"MaxInv = {self.max_inv} MaxT = {self.max_t} FixDrain = {'TRUE' if self.fix_drain else 'FALSE'}")
+                f"MaxInv = {self.max_inv} MaxT = {self.max_t} FixDrain = {'TRUE' if self.fix_drain else 'FALSE'} ReplayScripts <- {self.replay}")
 
     def harness_cfg(self):
         tx = TX[self.tx]
@@ -87,6 +89,134 @@ def run_scn(v, wd, prop, scn, mc=True):
         v.cov["replay_mismatches"] = v.cov.get("replay_mismatches", 0) + int(tot["mismatch_count"])
 
 
+def random_scripts(rng, mods, stack, n_inv=10):
+    """One random scenario: per module a list of command lists (the k-th handler invocation executes the k-th)."""
+    def cmd(c, g="", d=0, size=1, eat=0):
+        return {"c": c, "g": g, "d": d, "size": size, "eat": eat}
+    gates = {"a": ["ao", "at"] if "c" in mods else ["ao"], "b": ["bo"], "c": []}
+    scn = {}
+    for m in mods:
+        lists = []
+        for _ in range(n_inv):
+            cl = []
+            for _ in range(rng.choice([0, 1, 1, 2, 2, 3])):
+                k = rng.random()
+                eat = rng.choice([0, 0, 0, 1, 2]) if stack else 0
+                if k < 0.45 and gates[m]:
+                    cl.append(cmd("send", rng.choice(gates[m]), 0, rng.choice([1, 1, 2, 3]), eat))
+                elif k < 0.6 and gates[m]:
+                    cl.append(cmd("sendin", rng.choice(gates[m]), rng.choice([1, 2]), rng.choice([1, 2]), eat))
+                else:
+                    cl.append(cmd("sched", "", rng.choice([0, 1, 1, 2]), 1, eat))
+            k = rng.random()
+            if k < 0.05:
+                cl.append(cmd("shutdown"))
+            elif k < 0.13:
+                cl.append(cmd("restart", "", rng.choice([1, 2, 3])))
+            elif k < 0.17:
+                cl.append(cmd("panic"))
+            elif k < 0.22:
+                cl.insert(0, cmd("setcatch", "", rng.choice([0, 1])))
+            lists.append(cl)
+        scn[m] = lists
+    return scn
+
+
+def run_random(v, wd, prop, scn, count, tag):
+    """Direction V for Net.tla: `count` random mixed scenarios for configuration `scn`: TLC computes each log, the real
+    simulation must reproduce it."""
+    import random
+    import zlib
+    rng = random.Random(vlib.seed() * 7919 + zlib.crc32((prop + tag).encode()) % 100000)
+    hc = scn.harness_cfg()
+    stack = any(x > 0 for x in hc["stack"].values())
+    scenarios = [random_scripts(rng, scn.mods(), stack) for _ in range(count)]
+    for s_ in scenarios:
+        for m in "abc":
+            s_.setdefault(m, [])
+    sp = os.path.join(wd, f"scenarios_{tag}.json")
+    with open(sp, "w") as fh:
+        json.dump(scenarios, fh)
+    scn.replay = "Scenarios"
+    # the scenarios become literal TLA+ definitions, in chunks checked by parallel TLC processes (one big literal or a JSON
+    # file read through IOEnv is re-evaluated on every access: quadratic)
+    def tla(x):
+        if isinstance(x, dict):
+            return "[" + ", ".join(f"{k} |-> {tla(val)}" for k, val in x.items()) + "]"
+        if isinstance(x, list):
+            return "<<" + ", ".join(tla(y) for y in x) + ">>"
+        if isinstance(x, str):
+            return json.dumps(x)
+        return str(int(x))
+    CH = 50
+    chunks = [scenarios[i:i + CH] for i in range(0, len(scenarios), CH)]
+    def one(ci):
+        mod = f"Run_Net_{tag}_{ci}"
+        cwd = os.path.join(wd, f"rn_{tag}_{ci}")
+        os.makedirs(cwd, exist_ok=True)
+        with open(os.path.join(cwd, mod + ".tla"), "w") as fh:
+            fh.write(f"---- MODULE {mod} ----\nEXTENDS MC_Net, Json\nScenarios == <<\n" + ",\n".join(tla(x) for x in chunks[ci]) + "\n>>\n"
+                     f'Emit == (phase = "done") => PrintT(<<"REPLAY", ToJson([k |-> scn + {ci * CH}, log |-> log, err |-> err, endfail |-> EndFail, tend |-> now, dead |-> dead])>>)\n====\n')
+        return tlc(mod, f"CONSTANTS {scn.constants()}\nSPECIFICATION Spec\nINVARIANTS {INVS} Emit\nCHECK_DEADLOCK FALSE\n", cwd,
+                   workers=2, printed_to=os.path.join(cwd, "out.txt"))
+    from concurrent.futures import ThreadPoolExecutor
+    t0 = time.time()
+    with ThreadPoolExecutor(max_workers=max(1, vlib.NCPU // 2)) as ex:
+        results = list(ex.map(one, range(len(chunks))))
+    wall = time.time() - t0
+    for g in results:
+        if g.violation:
+            v.spec_violation(f"Net[{tag}] on a random scenario", g)
+            return
+    g = results[0]
+    g.distinct = sum(r.distinct for r in results)
+    g.generated = sum(r.generated for r in results)
+    g.wall = wall
+    v.add_tlc(f"Net interpreter on {count} random mixed scenarios [{tag}]", g, scn.constants().replace("\n", " "))
+    out = os.path.join(wd, f"runnet_{tag}.txt")
+    with open(out, "w") as oh:
+        for ci in range(len(chunks)):
+            cwd = os.path.join(wd, f"rn_{tag}_{ci}")
+            with open(os.path.join(cwd, "out.txt")) as fh:
+                shutil.copyfileobj(fh, oh)
+            shutil.rmtree(cwd, ignore_errors=True)
+    beh = os.path.join(wd, f"beh_rand_{tag}.txt")
+    n = 0
+    with open(out) as fh, open(beh, "w") as oh:
+        for line in fh:
+            d = vlib.decode_replay(line)
+            d["scripts"] = scenarios[d["k"] - 1]
+            oh.write(json.dumps(d) + "\n")
+            n += 1
+    cfgp = os.path.join(wd, f"cfg_rand_{tag}.json")
+    with open(cfgp, "w") as fh:
+        json.dump(hc, fh)
+    shards, total = vlib.shard_lines(beh, wd, vlib.NCPU, prefix=f"sh_rand_{tag}_")
+    log(f"[{prop}] Run_Net[{tag}]: {total} random mixed scenarios interpreted by TLC in {g.wall:.1f}s")
+    outs = vlib.run_vh_parallel([["net", "replay", s_, "--cfg", cfgp] for s_ in shards if os.path.getsize(s_) > 0])
+    tot = vlib.collect(v, outs, "net", f"running random mixed scenarios [{tag}]")
+    v.cov["traces_validated_against_impl"] += int(tot.get("replays", 0))
+    v.cov["evaluations"] += int(tot.get("checks", 0))
+    v.cov["distinct_nontrivial"] += int(tot.get("nontrivial", 0))
+    v.cov.setdefault("gen_runs", []).append({"scenario_family": "random:" + tag, "scenarios": total, "classes": tot.get("extra", {})})
+    seen = set()
+    for m in tot.get("mismatches", []):
+        f = m.get("field")
+        if f in seen:
+            continue
+        seen.add(f)
+        v.add_violation(f"[random {tag}] {f}: expected {json.dumps(m.get('expected'))[:200]} got {json.dumps(m.get('got'))[:200]}", m,
+                        {"suite": "net", "field": f, "family": "random:" + tag})
+
+
+def random_families(v, wd, prop, tier):
+    k = int(os.environ.get("VERIF_NET_RANDOM", "0")) or (200 if tier == "quick" else 3000)
+    run_random(v, wd, prop, Scn("mixQ", topo="T2", pol="PolQueue", tx="TxLin", lim="Lim128", stack="Stack012", stages="Stages212",
+                                catch="CatchB", max_inv=1000, max_t=14), k, "mixQ")
+    run_random(v, wd, prop, Scn("mixD", topo="T2", pol="PolDrop", tx="TxLin", stack="One0", max_inv=1000, max_t=14), k, "mixD")
+    run_random(v, wd, prop, Scn("mixF", topo="T2", pol="PolQueue", tx="TxFast", lat="Lat0", stack="Stack2", max_inv=1000, max_t=14), k, "mixF")
+
+
 def c07(tier):
     v = Verdict("C07", tier)
     vlib.build_harness()
@@ -109,6 +239,7 @@ def c07(tier):
         fam.append(Scn("queue200_fast", tx="TxFast", pol="PolQueue", lim="Lim200", lat="Lat0", max_inv=n))
     for s in fam:
         run_scn(v, wd, "C07", s)
+    random_families(v, wd, "C07", tier)
     v.cov["rule"] = ("sender scripts chosen by TLC from a 7-entry menu (bursts of 1-3 messages of 3 sizes in one handler, gaps smaller / equal "
                      "/ larger than the transmission time via self-scheduled re-sends, delayed sends) against channels with Drop, "
                      "Queue(None), Queue(128), Queue(0), bitrate 0, and a bitrate so high that small messages have a zero transmission "
@@ -131,6 +262,7 @@ def c09(tier):
     ]
     for s in fam:
         run_scn(v, wd, "C09", s)
+    random_families(v, wd, "C09", tier)
     # tasks and timers of a module that is shut down and restarted (requested from a task)
     import c_async
     c_async.family(v, wd, "C09", "life", 2, "ProgsLife", 16, what="module restarted from a task while another task has timers pending")
@@ -155,8 +287,29 @@ def c13(tier):
         Scn("panic_catchB", menu="MenuPanic", start="StartPanic", tx="TxZero", catch="CatchB", max_inv=n, max_t=8),
         Scn("panic_pe", menu="MenuPanic", start="StartPanic", tx="TxLin", pol="PolQueue", stack="Stack012", max_inv=n - 1, max_t=8),
     ]
+    # a panic while a shutdown / restart request of the same module is pending (two start-up stages: the request and the panic can
+    # also sit in different stages of one start or restart)
+    pr = Scn("panic_restart", menu="MenuPanicShut", start="StartPanicShut", tx="TxZero", stages="Stages212", max_inv=n - 1, max_t=8)
+    fam.append(pr)
     for s in fam:
         run_scn(v, wd, "C13", s)
+    random_families(v, wd, "C13", tier)
+    # the design-level statement: a module that panicked is never active again.  PanickedInertUnlessPending (part of every run
+    # above) holds; the full statement fails exactly through a restart the module had requested itself (F-C13-1), and the
+    # scenarios in which the interpreter predicts that were confirmed on the real simulation by the replays above
+    r = tlc("MC_Net", f"CONSTANTS {pr.constants()}\nSPECIFICATION Spec\nINVARIANTS PanickedInert\nCHECK_DEADLOCK FALSE\n", wd)
+    v.add_tlc("Net: PanickedInert [panic_restart]", r, pr.constants().replace("\n", " "))
+    again = [g for g in v.cov.get("gen_runs", []) if g.get("classes", {}).get("panicked_module_ran_again")]
+    if r.violation or again:
+        n_again = sum(int(g["classes"]["panicked_module_ran_again"]) for g in again)
+        sample = again[0]["classes"].get("panicked_module_ran_again_sample") if again else None
+        v.add_violation(f"a module that panicked is re-activated by a restart it had requested before (or in the start-up stage after) its panic and "
+                        f"handles events again: TLC counterexample to PanickedInert={'yes' if r.violation else 'no'}, confirmed on the real "
+                        f"simulation in {n_again} generated scenarios",
+                        {"tlc_counterexample": r.tail[-3000:] if r.violation else None, "real_run": sample},
+                        {"suite": "net", "panicked_module_revived": True, "by_own_pending_restart": True})
+    for g in v.cov.get("gen_runs", []):
+        g.get("classes", {}).pop("panicked_module_ran_again_sample", None)
     v.cov["rule"] = ("panic placements chosen by TLC: any module x at_sim_start / handle_message x any occurrence, several panicking modules, "
                      "catching and non-catching stereotypes, panics after the handler already emitted messages; the simulation must not "
                      "abort, the panicked module receives nothing further, every other module's observations equal the interpreter's "
@@ -180,6 +333,7 @@ def c14(tier):
     ]
     for s in fam:
         run_scn(v, wd, "C14", s)
+    random_families(v, wd, "C14", tier)
     v.cov["rule"] = ("processing stacks of 0, 1 and 2 elements (first element from the simulation-wide default stack, further ones appended "
                      "by Module::stack), every message tagged by TLC with the element that consumes it (or none): event_start / incoming / "
                      "handler / event_end entries of every start-up stage, message and tear-down must equal the interpreter's bracket "
